@@ -45,7 +45,7 @@ for p in props:
             "evidence_file": f"/verif/evidence/{pid}.json",
             "replay_cmd_template": f"python3 /verif/bin/check.py {pid} --replay {{path}}",
             "engine": "lean-model+proofs",
-            "level_claimed": {"category": "proof", "text": c["text"], "design_ref": f"DESIGN.md §6 {pid}"},
+            "level_claimed": {"category": "proof", "text": c["text"], "design_ref": f"DESIGN.md §5 {pid}"},
             "level_note": c["note"],
             "technique": c["technique"],
         })
